@@ -164,19 +164,39 @@ impl IndexEntry {
         // Write size (big-endian, always 4 bytes for now)
         data.extend_from_slice(&self.size.to_be_bytes());
 
+        // An offset that does not fit the configured field width must be
+        // refused: writing only its low bytes would make the index resolve
+        // the key to a different location than the one that was inserted.
+        let offset_too_large = || {
+            ArchiveError::InvalidFormat(format!(
+                "Offset {:#x} does not fit in {} offset bytes",
+                self.offset, offset_bytes
+            ))
+        };
+
         // Write offset (big-endian)
         match offset_bytes {
-            4 => data.extend_from_slice(&(self.offset as u32).to_be_bytes()),
+            4 => {
+                let offset = u32::try_from(self.offset).map_err(|_| offset_too_large())?;
+                data.extend_from_slice(&offset.to_be_bytes());
+            }
             5 => {
+                if self.offset >= 1u64 << 40 {
+                    return Err(offset_too_large());
+                }
                 let bytes = self.offset.to_be_bytes();
                 data.extend_from_slice(&bytes[3..]);
             }
             6 => {
                 // Archive-group: 2 bytes archive index + 4 bytes offset
                 if let Some(archive_idx) = self.archive_index {
+                    let offset = u32::try_from(self.offset).map_err(|_| offset_too_large())?;
                     data.extend_from_slice(&archive_idx.to_be_bytes());
-                    data.extend_from_slice(&(self.offset as u32).to_be_bytes());
+                    data.extend_from_slice(&offset.to_be_bytes());
                 } else {
+                    if self.offset >= 1u64 << 48 {
+                        return Err(offset_too_large());
+                    }
                     // Fallback for compatibility
                     let bytes = self.offset.to_be_bytes();
                     data.extend_from_slice(&bytes[2..]);
